@@ -21,7 +21,6 @@ TABLE = [
  ("S20-C05-recover-counter-fastpath", "C05b", "C05", "two threads: A's put_small stopped between clearing the bit and incrementing the counter, B allocates that frame; crash: counter 0 with one zero bit; recovery trusts counter 0", "C05 quick: VIOLATION (crash points: free frame allocated after recovery)", ""),
  ("S21-C19-cores-half-slot", "C19", "C19", "class with count kind cores_half, even core count, call from the last core (slot == slot count)", "C19 quick: VIOLATION (classmon grid)", ""),
  ("S22-C20-found-order", "C20", "C20", "partial free of a larger allocation where the freed part lies in the lower half, then frees of the remaining parts", "C20 quick: VIOLATION (tracemon: traced free reported unknown)", ""),
- ("S23-C21-stale-undo-cas", "C21", "C21", "get of order 1..8 on a fragmented huge frame (counter ok, no aligned block) frozen between decrement and undo while another thread changes the same counter; undo CAS uses a stale expected value and spins forever", "C21 quick: VIOLATION (solo mode: step budget exceeded)", ""),
  ("S24-C23-merged-byte-arms", "C23", "C23", "orders 4/5 and rows whose lowest candidate block consists of 0x00/0x01 bytes with borrow propagation", "C23 quick: VIOLATION (rowmon vs reference loop)", ""),
  ("S25-C04-drain-load-store", "C04b", "C04", "drain() racing a counter update of the same local slot between drain's load and its store", "C04 quick: VIOLATION (sched stall sweep, quiescent end-of-run: fast != exact)", ""),
  ("S26-C13-steal-any-demote", "C13b", "C13", "request falls through to steal_any and another class's slot rated Demote still has frames (exhaustion or targeted get into a tree reserved by a higher class)", "C13 quick: VIOLATION (seq: reported class not permitted)", ""),
@@ -33,6 +32,28 @@ TABLE = [
  ("S32-C18-locals-stride", "C18b", "C18", "classing whose classes have different slot counts; any access to the last slot of a later class", "C18 quick: VIOLATION (guard page in every native shard, ASan)", ""),
  ("S33-C08-range-check-first-frame", "C08b", "C08", "order > 0, aligned frame f < frames < f + 2^order (partial last tree / huge frame / row)", "C08 quick: VIOLATION (invalid grid)", ""),
  ("S34-C15-class-change-reloads-counter", "C15b", "C15", "offline a free tree, then change_tree with operation None (class only) on it: counter reloaded, tree silently online", "C15 quick: VIOLATION (seq: tree entry after change)", ""),
+ ("S35-C01-cas-all-rollback-inclusive", "C01c", "C01", "two threads in compare_exchange_all on overlapping huge entries (order >= 9): B passes the pre-check, is delayed before a CAS, A allocates that entry; B's rollback (inclusive range) frees A's live huge frame", "C01 quick: VIOLATION (sched multi-huge: returned block overlaps a held block)", ""),
+ ("S36-C04-steal-undo-dropped", "C04c", "C04", "request with a slot whose reservation cannot serve it lands on a tree of another class rated Steal with counter >= 2^order but fragmented: failed lower allocation, counter not given back", "C04 quick: VIOLATION (seq: fast != exact)", ""),
+ ("S37-C05-recover-rolls-split-forward", "C05c", "C05", "crash after the 1st and before the 8th row CAS of the bitfield fill of a partial free of a whole huge frame; recovery rolls the split forward from a partly filled bitfield", "C05 quick: VIOLATION (seq crash points: frame of a completed allocation free after recovery)", ""),
+ ("S38-C13-demote-partial-as-steal", "C13c", "C13", "slot's reservation exhausted, no free tree and no tree of the requested class, an unreserved partially free tree of a higher class rated Demote: frames taken, higher class reported", "C13 quick: VIOLATION (seq + sched: reported class not permitted)", ""),
+ ("S39-C23-order1-gives-up", "C23b", "C23", "order 1 and a row whose lowest pair with a free even bit has its odd bit set while a free pair exists above", "C23 quick: VIOLATION (rowmon)", ""),
+ ("S40-C12-huge-scan-wrap-len", "C12c", "C12", "partial last tree with exactly 3 whole huge frames, order HUGE_ORDER+1, row hint in the second half of the tree", "C12 quick: VIOLATION (lowermon: unaligned block returned / Memory although a pair is free)", ""),
+ ("S41-C18-stats-non-atomic-read", "C18c", "C18", "one thread in stats() (plain reads of the huge-entry tables) while another thread's get/put updates them atomically: data race, silent on x86-64", "C18 quick: VIOLATION after strengthening (ThreadSanitizer data race in the free-running workload)", "missed by the first C18 workloads: no concurrent workload issued statistics queries (and the plain reads bypass the hook, so no hook-based monitor can see them); added: free-running threads also call stats / tree_stats / stats_at / lower.is_free concurrently (under TSan and Miri)"),
+ ("S42-C06-freeall-last-table-remainder", "C06b", "C06", "Init::FreeAll with a frame count whose last tree ends inside a huge frame and has further table entries behind it (e.g. 1, 63, 513, 2148)", "C06 quick: VIOLATION (init grid)", ""),
+ ("S43-C07-none-masks-tail", "C07b", "C07", "hand-off of a region whose length is not a multiple of 512 while frames of the partial last huge frame are free; continuation reaching that huge frame", "C07 quick: VIOLATION (handoff: per-frame status differs right after the hand-off)", ""),
+ ("S44-C10-search-skips-start-tree", "C10b", "C10", "after drain the only tree that can serve a slot's base-order request is its aligned start tree, usable only via Demote (partially filled) or Steal", "C10 quick: VIOLATION (seq: base-order get right after drain fails)", ""),
+ ("S45-C14-reserved-tree-global-counter", "C14b", "C14", "reserved tree with a non-zero global counter (frames freed without naming the slot)", "C14 quick: VIOLATION (seq: sum over classes)", ""),
+ ("S46-C16-sortedbuffer-fastpath-overwrites-max", "C16b", "C16", "a candidate strictly better than every remembered one arrives while the buffer is exactly full", "C16 quick: VIOLATION (sortmon: SortedBuffer vs sort-and-take-N)", ""),
+ ("S47-C19-fallback-slot-from-first-class", "C19b", "C19", "(order, gfp) matching no configured class, default class not the first and with fewer slots than the first class's kind", "C19 quick: VIOLATION (classmon grid)", ""),
+ ("S48-C20-split-part-frame-stride", "C20b", "C20", "allocation of order >= 2, covered free of order 1 <= e < order (split), later free of a remaining part with index >= 1", "C20 quick: VIOLATION (tracemon: replayer frees another frame)", ""),
+ ("S49-C21-drain-waits-for-reserved-flags", "C21b", "C21", "thread frozen between setting a tree's reserved flag and writing the slot (or between emptying the slot and unreserve); drain() run alone spins", "C21 quick: VIOLATION (solo mode: step budget exceeded in drain)", ""),
+ ("S50-C02-get-at-bits-before-counter", "C02c", "C02", "failing targeted small get inside a whole-allocated huge frame leaves the bits set under the huge marker; shows after the huge frame is freed and reused, or as a panic on the next split", "C02 quick: VIOLATION (seq)", ""),
+ ("S51-C17-zone-target-below-offset", "C17c", "C17", "ZoneAlloc/NvmAlloc with non-zero offset, targeted get with a frame below the offset while a free block exists", "C17 quick: VIOLATION (wrappers: frame below the offset accepted)", ""),
+ ("S52-C10-demote-undo-order-not-frames", "C10c", "C10", "failing targeted get of a lower class into a tree reserved by a higher class (demotion succeeds, lower get_at fails): only `order` frames returned to the tree counter; shows after drain", "C10 quick: VIOLATION (seq: targeted get right after drain fails)", ""),
+ ("S53-C04-is-zero-multirow-wrap", "C04d", "C04", "lower.is_free for order 7/8 on the last block of its order in a split huge frame that is not entirely free", "C04 quick: VIOLATION (seq: is_free vs model)", ""),
+ ("S54-C09-buddy-index-tree-huge-1", "C09g", "C09", "geometry tree_huge_1 only: untargeted get of HUGE_ORDER indexes children[i ^ 1]", "C09 quick: VIOLATION after adding the other geometries to the quick tier (seq/th1: index out of bounds); C09 thorough before that", "missed by the first C09 quick plan (default + tree_huge_2 only; the thorough tier had all geometries): quick now runs one shard each of tree_huge_1, tree_huge_8 and 16K (C06/C07/C08/C11/C17 also 16K+tree_huge_2)"),
+ ("S55-C06-tree-mask-huge-order-plus-2", "C06g", "C06", "TREE_HUGE != 4 (tree_huge_2: counts like 1537; tree_huge_8: frames % 4096 >= 2048)", "C06 quick: VIOLATION (init/th2)", ""),
+ ("S56-C21-get-at-retries-counter", "C21c", "C21", "thread frozen between bitfield toggle and counter update in the same huge frame; a targeted small get of zero bits run alone retries the counter decrement forever", "C21 quick: VIOLATION (solo mode: step budget exceeded)", ""),
 ]
 
 def main():
